@@ -4,6 +4,7 @@ import (
 	"encoding/json"
 	"fmt"
 	"strings"
+	"sync"
 
 	"cuelang.org/go/cue"
 	"cuelang.org/go/cue/cuecontext"
@@ -53,6 +54,10 @@ func CueValidate(query, cueFile, currentPath string) (tc CanBeAPart, err error) 
 	if query == "" || cueFile == "" {
 		return nil, fmt.Errorf("missing parameter value")
 	}
+
+	// the caches below, and the cue values held in them, must not be used by two goroutines at once
+	cueValidateMutex.Lock()
+	defer cueValidateMutex.Unlock()
 
 	var ok bool
 
@@ -313,8 +318,9 @@ func checkIfValueInList(value string, list []string) (isInList bool) {
 }
 
 var (
-	mpathOpCache  = map[string]Operation{}
-	cueValueCache = map[string]cue.Value{}
+	cueValidateMutex sync.Mutex
+	mpathOpCache     = map[string]Operation{}
+	cueValueCache    = map[string]cue.Value{}
 )
 
 type BP_BasePath string
